@@ -31,6 +31,26 @@ CanonOK(cfg, st, e) ==
         LET p == Src(cfg, r.l)
         IN r.tok \in {Tok(cfg, p, g) : g \in NearestSet(st.full[p], r.t)}
 
+(* C20: a reader of a WeightedSum receives sum(value * weight) of what the *)
+(* merger pulled for the requested time, in the units of the first value  *)
+UFactor(u) == IF u = "km" THEN 1000 ELSE 1
+WSumOK(cfg, e) ==
+  LET c == e.c IN
+  (Len(cfg.comps[c].ins) = 1 /\ cfg.comps[Src(cfg, <<c, 1>>)].ws /\ Chain(cfg, <<c, 1>>) = <<>>) =>
+     LET lg == e.log IN
+     (Len(lg) = 4 /\ \A k \in 1..4 : lg[k].ok) =>
+        e.got[1] = lg[1].tok * UFactor(cfg.comps[Src(cfg, lg[1].l)].u) * lg[2].tok
+                   + lg[3].tok * UFactor(cfg.comps[Src(cfg, lg[3].l)].u) * lg[4].tok
+
+(* requests that a pull-based component made to its own inputs; a merger   *)
+(* that memoises per request time may answer a repeated request without     *)
+(* pulling again: its requests are then absent as a whole                   *)
+ProviderPart(cfg, lg) == SelectSeq(lg, LAMBDA x : ~IsTime(cfg, x[2][1]))
+ProviderOK(cfg, got, want) ==
+  LET Skipped == {w \in Comps(cfg) : cfg.comps[w].ws /\ ~\E k \in 1..Len(got) : got[k][2][1] = w}
+  IN got = SelectSeq(want, LAMBDA x : x[2][1] \notin Skipped)
+ReadsMerger(cfg, c) == \E ii \in 1..Len(cfg.comps[c].ins) : cfg.comps[Src(cfg, <<c, ii>>)].ws
+
 PubsEq(cfg, st, snap) ==
   \A c \in Comps(cfg) : snap.pubs[c] = st.pubs[c]
 TimeEq(cfg, st, snap) ==
@@ -47,10 +67,13 @@ UpdVerdict(cfg, st, e, u, k) ==
   ELSE IF e.ta # u.s.time[c] \/ e.ta <= e.tb THEN Fail("monotone", k)
   ELSE IF \E x \in 1..Len(e.log) : ~e.log[x].ok THEN Fail("served", k)
   ELSE IF \E x \in 1..Len(e.nlog) : ~e.nlog[x].ok THEN Fail("served-notify", k)
+  ELSE IF e.fail /\ ReadsMerger(cfg, c) THEN Fail("merger-raised", k)
   ELSE IF e.fail THEN Fail("update-raised", k)
-  ELSE IF ProjLog(e.log) # ProjLog(u.log) THEN Fail("delay-shift", k)
+  ELSE IF ~ProviderOK(cfg, ProviderPart(cfg, ProjLog(e.log)), ProviderPart(cfg, ProjLog(u.log))) THEN Fail("provider-time", k)
+  ELSE IF ~ProviderOK(cfg, ProjLog(e.log), ProjLog(u.log)) THEN Fail("delay-shift", k)
   ELSE IF ProjSet(e.nlog) # ProjSet(u.nlog) THEN Fail("delay-shift-notify", k)
   ELSE IF ~CanonOK(cfg, st, e) THEN Fail("canon", k)
+  ELSE IF ~WSumOK(cfg, e) THEN Fail("weighted-sum", k)
   ELSE IF ~TimeEq(cfg, u.s, e.snap) THEN Fail("times", k)
   ELSE IF ~PubsEq(cfg, u.s, e.snap) THEN Fail("retained", k)
   ELSE "ok"
